@@ -514,7 +514,22 @@ def classify_inp(a, b):
 
     if rest(a) == rest(b) and words(a) == words(b):
         return KW_MECH
+    if crafted_digest(a.get("inp", {})) or crafted_digest(b.get("inp", {})):
+        return PLACEHOLDER_MECH
     return "two input configurations with one byte stream"
+
+
+PLACEHOLDER_MECH = ("a 32-byte digest that starts with the 1-byte placeholder of an unknown file "
+                    "followed by a word marker reads as the placeholder plus further words")
+
+
+def crafted_digest(files):
+    """A digest of 32 bytes that begins with b"u" and a word marker (00 00 / 00 01 / 00 02)."""
+    for rec in files.values():
+        hexd = rec[0]
+        if len(hexd) == 64 and hexd.startswith("7500") and hexd[4:6] in ("00", "01", "02"):
+            return True
+    return False
 
 
 def run_case(case):
@@ -540,8 +555,9 @@ def run_case(case):
         counters["birthday_entries"] += 1
         other = table.get(digest)
         if other is not None and other[0] != canon:
-            mech = classify_inp(other[1], conf) if what == "input" else \
-                "two output configurations with one digest"
+            mech = classify_inp(other[1], conf) if what == "input" else (
+                PLACEHOLDER_MECH if crafted_digest(other[1]["out"]) or crafted_digest(conf["out"])
+                else "two output configurations with one digest")
             vio(mech,
                 f"{what} digest {digest.hex()[:16]} shared by {other[0][:300]} and {canon[:300]}",
                 {"a": other[1], "b": conf})
@@ -600,7 +616,8 @@ def run_case(case):
                 counters["parse_mismatch_rehashed"] += 1
                 sh = _sh.with_out_hashes({k: real.fh(v) for k, v in parsed_out.items()})
                 if sh.out_digest == out_d:
-                    vio("two output configurations with one byte stream",
+                    vio(PLACEHOLDER_MECH if crafted_digest(conf["out"]) or crafted_digest(parsed_out)
+                        else "two output configurations with one byte stream",
                         f"output digest shared by {conf['out']} and {parsed_out}",
                         {"a": conf["out"], "b": parsed_out})
         except ParseError:
